@@ -1,6 +1,6 @@
 (* C05 - property theorems only.  Each is closed by `exact` of a lemma of C05_Proofs.v / C05_HalfClose.v / C05_Delay.v. *)
 From Coq Require Import List NArith ZArith Bool.
-From Dae Require Import C05_Spec C05_Model C05_Proofs C05_HCDefs C05_HalfClose C05_Delay C05_PoolModel C05_PoolProofs C05_BufioModel C05_BufioProofs C05_SpliceModel C05_SpliceProofs.
+From Dae Require Import C05_Spec C05_Model C05_Proofs C05_HCDefs C05_HalfClose C05_Delay C05_PoolModel C05_PoolProofs C05_BufioModel C05_BufioProofs C05_SpliceModel C05_SpliceProofs C05_ReadyModel C05_ReadyProofs.
 From Dae.gen Require Import C05_Extracted.
 Import ListNotations.
 Open Scope N_scope.
@@ -223,6 +223,31 @@ Example C05_nonvacuous_splice :
   /\ fst (run_history code_flags [w_conn1; w_conn2] []) = [[1]; [9;8]]
   /\ map pp_bytes (snd (run_history code_flags [w_conn1; w_conn2] [])) = [[]].
 Proof. exact splice_witness. Qed.
+
+(* The Sniffer's dataReady signal (C05_ReadyModel; the number of close(s.dataReady) on each way out of
+   readStreamOnceWithReadDeadline - no error, sniff deadline expired, other error - is extracted from the source
+   by interpreting its statements).  After SniffTcp returns, whatever the reads returned and the parsers said in
+   any number of rounds, the channel ConnSniffer.TakeRelaySegments / TakeRelayPrefix / Sniffer.Read wait on has been
+   closed exactly once: the relay never blocks on it and no close panics.  (The expired sniff deadline is one of
+   the exits: "detection never cuts or stalls a healthy connection".) *)
+Theorem C05_ready_after_sniff :
+  forall rounds st ret,
+    sniff_ready code_closes rounds 0 = (st, ret) -> ret = true ->
+    receive_blocks st = false /\ close_panics st = false.
+Proof. exact ready_after_sniff_proof. Qed.
+Print Assumptions C05_ready_after_sniff.
+
+(* and the dataError bookkeeping of the source is the one C05_Model.sniff_rounds assumes *)
+Theorem C05_sniffer_errors_as_modelled :
+  code_derr ROk = false /\ code_derr RTimeout = false /\ code_derr RErr = true.
+Proof. exact code_derr_as_modelled. Qed.
+Print Assumptions C05_sniffer_errors_as_modelled.
+
+(* the variant that returns on the expired deadline before closing the channel is refuted *)
+Theorem C05_ready_not_closed_on_timeout_refuted :
+  exists rounds, let '(st, ret) := sniff_ready seed_closes rounds 0 in ret = true /\ receive_blocks st = true.
+Proof. exact ready_seed_refuted_proof. Qed.
+Print Assumptions C05_ready_not_closed_on_timeout_refuted.
 
 (* Non-vacuity / regression examples: the inputs that refuted the full statements before the repairs. *)
 Example C05_nonvacuous_port53_fallback :
